@@ -1,7 +1,7 @@
 SPECIFICATION Spec
 CONSTANTS
   Mode = "tree"
-  MCFields = {"time_begin", "facecolor", "show_label"}
+  MCFields = {"time_begin", "facecolor"}
   MCValues = {"a", "b"}
   MCSub = ""
   MaxSets = 2
